@@ -21,6 +21,11 @@
 #include <mach/mach_time.h>
 #endif // __MACH__
 
+#if defined(DISPENSO_VERIF_SIM)
+// Verification hook (off by default): lets a deterministic simulator own the clock.
+extern "C" double dispenso_verif_sim_now(void) __attribute__((weak));
+#endif // DISPENSO_VERIF_SIM
+
 namespace dispenso {
 
 #if defined(DISPENSO_HAS_TIMESTAMP)
@@ -121,6 +126,11 @@ double ticksPerSecond() {
 #endif
 
 double getTime() {
+#if defined(DISPENSO_VERIF_SIM)
+  if (dispenso_verif_sim_now) {
+    return dispenso_verif_sim_now();
+  }
+#endif // DISPENSO_VERIF_SIM
   static double secondsPerTick = 1.0 / ticksPerSecond();
   static double startTime = static_cast<double>(detail::timestamp()) * secondsPerTick;
 
@@ -129,6 +139,11 @@ double getTime() {
 }
 #else
 double getTime() {
+#if defined(DISPENSO_VERIF_SIM)
+  if (dispenso_verif_sim_now) {
+    return dispenso_verif_sim_now();
+  }
+#endif // DISPENSO_VERIF_SIM
   static auto startTime = std::chrono::high_resolution_clock::now();
   auto cur = std::chrono::high_resolution_clock::now();
 
